@@ -541,11 +541,26 @@ def rule_r6_r7(chk, p, t):
         ins = [c for c in ast.walk(lp) if isinstance(c, ast.Call) and call_name(c) == "insertData"]
         ep = [c for c in ast.walk(lp) if isinstance(c, ast.Call) and call_name(c) == "Epoch"]
         guard = [n for n in ast.walk(lp) if isinstance(n, ast.If) and "getData" in unparse(n.test)]
+        # insert-if-absent, however the branch is written: the insert is reached only when the lookup found nothing
+        absent_only = False
+        if ins:
+            cfg_s = cfg_of(sdo)
+            try:
+                inode = cfg_s.node_of(ins[0])
+                for cid, lab in cfg_s.control_conditions(inode.id):
+                    tst = cfg_s.nodes[cid].ast
+                    txt = unparse(tst)
+                    if "getData" in txt:
+                        neg = isinstance(tst, ast.UnaryOp) and isinstance(tst.op, ast.Not)
+                        if (neg and lab is True) or (not neg and lab is False):
+                            absent_only = True
+            except KeyError:
+                pass
         clears = [n for n in walk_no_nested(sdo.node) if (isinstance(n, ast.Assign) and unparse(n.targets[0]) == f"self.{fld}" and unparse(n.value) in ("{}", "dict()", "[]", "set()")) or (isinstance(n, ast.Call) and call_name(n) == "clear" and f"self.{fld}" in unparse(n))]
         bad = []
         if not ins or not ep:
             bad.append("the loop does not insert an Epoch row")
-        if not guard or not (isinstance(guard[0].test, ast.UnaryOp) and isinstance(guard[0].test.op, ast.Not)):
+        if not absent_only:
             bad.append("the insert is not guarded by `if not <lookup>` (duplicate epochs violate the unique key)")
         if lp.lineno > bs[0].lineno:
             bad.append("epochs are ensured after the bulk save")
@@ -583,7 +598,11 @@ def rule_r6_r7(chk, p, t):
         vars_jd = {n.id for n in ast.walk(jd_e) if isinstance(n, ast.Name)} if jd_e is not None else set()
         vars_ts = {n.id for n in ast.walk(ts) if isinstance(n, ast.Name)} if ts is not None else set()
         loopvar = vars_jd & vars_ts - {"timedelta", "start_date"}
-        ok = bool(loopvar) and "convertToJulianDate(self.julian_date_start)" in unparse(jd_e) and "start_date + timedelta(seconds=" in unparse(ts) and "isoformat(timespec='microseconds')" in unparse(ts)
+        start_alias = any(isinstance(n, ast.Assign) and unparse(n.targets[0]) == "self.datetime_start" and unparse(n.value) == "start_date" for n in walk_no_nested(ci.node))
+        ts_txt = unparse(ts) if ts is not None else ""
+        base_ok = "start_date + timedelta(seconds=" in ts_txt or (start_alias and "self.datetime_start + timedelta(seconds=" in ts_txt)
+        loopvar = loopvar - {"self"}
+        ok = bool(loopvar) and "convertToJulianDate(self.julian_date_start)" in unparse(jd_e) and base_ok and "isoformat(timespec='microseconds')" in ts_txt
         if ok:
             r7.ok(ci.qualname, f"both from `{sorted(loopvar)[0]}`", ci.loc(eps[0]))
         else:
